@@ -776,3 +776,275 @@ Proof.
       * apply orb_true_iff. destruct Hg as [->|Hg]; [left; apply N.eqb_refl | right; exact Hg].
       * apply IH. exists j. split; [lia | exact Hp].
 Qed.
+
+(* ------------------------------------------------------------------------------------------ *)
+(* DomainManager with a domain matching function                                               *)
+
+Lemma canon_equiv : forall mf U A L L' s, canon mf U A L s -> (forall e, In e L <-> In e L') -> canon mf U A L' s.
+Proof.
+  intros mf U A L L' s C E. destruct C as [cr cu cl cU cA n1 n2 n3]. constructor; auto.
+  - intros x r. rewrite cr. split; intros [Hk G]; (split; [exact Hk|]);
+      eapply grant_equiv; try exact G; intro l; [symmetry|]; apply E.
+  - intros u r Hl. apply cl. apply E. exact Hl.
+  - intros e He. apply cA. apply E. exact He.
+Qed.
+
+Lemma flat_aset : forall (c : name -> bool) (k : name) (x : link) (e : link) (m : list (name * list link)),
+  let old := match alookup k m with Some l => l | None => [] end in
+  In e (flat_map (fun p => if c (fst p) then snd p else []) (aset k (old ++ [x]) m)) <->
+  In e (flat_map (fun p => if c (fst p) then snd p else []) m) \/ (c k = true /\ e = x).
+Proof.
+  intros c k x e m. induction m as [|[k' v'] m IH]; simpl.
+  - destruct (c k); simpl; intuition congruence.
+  - destruct (N.eqb k k') eqn:E; simpl.
+    + apply N.eqb_eq in E. subst k'. destruct (c k); simpl.
+      * rewrite !in_app_iff. simpl. intuition congruence.
+      * intuition congruence.
+    + rewrite !in_app_iff. simpl in IH. rewrite IH. tauto.
+Qed.
+
+Lemma alookup_map_cond : forall {V} (c : name -> bool) (f : V -> V) d (m : list (name * V)),
+  alookup d (map (fun e => if c (fst e) then (fst e, f (snd e)) else e) m) =
+  option_map (fun v => if c d then f v else v) (alookup d m).
+Proof.
+  intros V c f d m. induction m as [|[k v] m IH]; simpl; [reflexivity|].
+  destruct (c k) eqn:Ck; simpl; destruct (N.eqb d k) eqn:E; auto; apply N.eqb_eq in E; subst; simpl; rewrite Ck; reflexivity.
+Qed.
+
+Section DomCanon.
+  Variables mf dmf : name -> name -> bool.
+  Variable U : list name.
+  Variable A : list link.
+  Variable Dm : list name.
+  Variable m : nat.
+  Hypothesis H1 : forall x l, In x U -> In l A -> mf x (snd l) = true -> x = snd l.
+  Hypothesis H2 : forall x p l, In x U -> In p U -> In l A ->
+    mf x p = true -> mf p (fst l) = true -> mf x (fst l) = true.
+  Hypothesis Hrefl : forall d, In d Dm -> dmf d d = true.
+
+  Definition pdm_inv (h : list pdm_op) (s : pdm_state) : Prop :=
+    pdm_max s = m /\
+    (forall d e, In e (pdm_dlinks dmf s d) <-> In e (pdm_adds_in dmf d h)) /\
+    (forall d rm, alookup d (pdm_cache s) = Some rm ->
+       In d Dm /\ canon mf U A (pdm_adds_in dmf d h) rm /\ pm_max rm = m).
+
+  Lemma pdm_inv_empty : pdm_inv [] (pdm_empty m).
+  Proof. split; [reflexivity|]. split; [intros d e; simpl; tauto | intros d rm H; discriminate]. Qed.
+
+  Lemma add_all_canon : forall ls L s, canon mf U A L s ->
+    (forall l, In l ls -> In (fst l) U /\ In (snd l) U /\ In l A) ->
+    canon mf U A (L ++ ls) (pm_add_all mf s ls) /\ pm_max (pm_add_all mf s ls) = pm_max s.
+  Proof.
+    induction ls as [|[u r] ls IH]; intros L s C Hl; simpl.
+    - rewrite app_nil_r. auto.
+    - destruct (Hl (u, r)) as [Hu [Hr Ha]]; [left; reflexivity|]. simpl in Hu, Hr.
+      destruct (add_link_canon mf U A H1 H2 L s u r C Hu Hr Ha) as [C' [_ M']].
+      destruct (IH _ _ C') as [C2 M2]; [intros l Hin; apply Hl; right; exact Hin|].
+      unfold pm_add_all in *. simpl.
+      replace (L ++ (u, r) :: ls) with ((L ++ [(u, r)]) ++ ls) by (rewrite <- app_assoc; reflexivity).
+      split; [exact C2 | congruence].
+  Qed.
+
+  Lemma adds_in_sub : forall d h u r, In (u, r) (pdm_adds_in dmf d h) ->
+    In (u, r) (pdm_adds h) /\ In u (pdm_names h) /\ In r (pdm_names h).
+  Proof.
+    intros d h u r H. unfold pdm_adds_in in H. apply in_flat_map in H. destruct H as [o [Ho Hin]].
+    destruct o as [u' r' d'|?|?|?|?]; try destruct Hin.
+    destruct (N.eqb d' d || dmf d d'); [|destruct Hin]. destruct Hin as [E|[]]. inversion E; subst.
+    unfold pdm_adds, pdm_names. rewrite !in_flat_map. repeat split.
+    - exists (QAdd u r d'). simpl. auto.
+    - exists (QAdd u r d'). simpl. auto.
+    - exists (QAdd u r d'). simpl. auto.
+  Qed.
+
+  (* fetching (or building) the manager of a domain *)
+  Lemma pdm_get_rm_inv : forall h s d0, pdm_inv h s -> In d0 Dm ->
+    incl (pdm_names h) U -> incl (pdm_adds h) A ->
+    let rm := fst (pdm_get_rm mf dmf s d0) in
+    let s1 := snd (pdm_get_rm mf dmf s d0) in
+    canon mf U A (pdm_adds_in dmf d0 h) rm /\ pm_max rm = m /\
+    pdm_links s1 = pdm_links s /\ pdm_max s1 = pdm_max s /\
+    (forall d, d <> d0 -> alookup d (pdm_cache s1) = alookup d (pdm_cache s)).
+  Proof.
+    intros h s d0 [Mx [Dl Ch]] Hd HU HA. unfold pdm_get_rm.
+    destruct (alookup d0 (pdm_cache s)) as [rm|] eqn:C; simpl.
+    - destruct (Ch d0 rm C) as [_ [Cn Mr]]. auto.
+    - assert (B : canon mf U A ([] ++ pdm_dlinks dmf s d0) (pdm_build mf dmf s d0) /\
+                  pm_max (pdm_build mf dmf s d0) = pm_max (pm_empty (pdm_max s))).
+      { unfold pdm_build, pm_of_links. apply add_all_canon; [apply canon_empty|].
+        intros [u r] Hin. apply Dl in Hin. apply adds_in_sub in Hin. destruct Hin as [Ha [Hu Hr]].
+        simpl. auto. }
+      destruct B as [B1 B2]. simpl in B1, B2. split; [|split; [congruence|]].
+      + eapply canon_equiv; [exact B1 | apply Dl].
+      + split; [reflexivity|]. split; [reflexivity|]. intros d Hne. rewrite alookup_app.
+        destruct (alookup d (pdm_cache s)); [reflexivity|]. simpl.
+        apply N.eqb_neq in Hne. rewrite Hne. reflexivity.
+  Qed.
+
+  Lemma pdm_dlinks_links : forall s s' d, pdm_links s' = pdm_links s -> pdm_dlinks dmf s' d = pdm_dlinks dmf s d.
+  Proof. intros s s' d E. unfold pdm_dlinks, pdm_own. rewrite E. reflexivity. Qed.
+
+  (* a query-like step: fetch the manager of d0, replace it by rm' with the same canonical links *)
+  Lemma pdm_query_inv : forall h o s d0 rm', pdm_inv h s -> In d0 Dm ->
+    incl (pdm_names h) U -> incl (pdm_adds h) A ->
+    (forall d, pdm_adds_in dmf d (h ++ [o]) = pdm_adds_in dmf d h) ->
+    canon mf U A (pdm_adds_in dmf d0 h) rm' -> pm_max rm' = m ->
+    pdm_inv (h ++ [o]) (pdm_put (snd (pdm_get_rm mf dmf s d0)) d0 rm').
+  Proof.
+    intros h o s d0 rm' I Hd HU HA Same Cn Mr.
+    destruct (pdm_get_rm_inv h s d0 I Hd HU HA) as [_ [_ [Lk [Mx Oth]]]].
+    destruct I as [Mx0 [Dl Ch]]. split; [simpl; congruence|]. split.
+    - intros d e. rewrite Same. rewrite <- Dl. unfold pdm_put.
+      rewrite (pdm_dlinks_links s _ d); [tauto | simpl; exact Lk].
+    - intros d rm. unfold pdm_put. simpl. rewrite Same. destruct (N.eq_dec d d0) as [->|Hne].
+      + rewrite alookup_aset_eq. intro E; inversion E; subst. auto.
+      + rewrite alookup_aset_neq by exact Hne. rewrite Oth by exact Hne. apply Ch.
+  Qed.
+
+  Lemma pdm_has_link_split : forall s a b d,
+    pdm_has_link mf dmf s a b d =
+    (fst (pm_has_link mf (fst (pdm_get_rm mf dmf s d)) a b),
+     pdm_put (snd (pdm_get_rm mf dmf s d)) d (snd (pm_has_link mf (fst (pdm_get_rm mf dmf s d)) a b))).
+  Proof.
+    intros. unfold pdm_has_link. destruct (pdm_get_rm mf dmf s d) as [rm s1]. simpl.
+    destruct (pm_has_link mf rm a b). reflexivity.
+  Qed.
+  Lemma pdm_get_roles_split : forall s x d,
+    pdm_get_roles mf dmf s x d =
+    (fst (pm_get_roles mf (fst (pdm_get_rm mf dmf s d)) x),
+     pdm_put (snd (pdm_get_rm mf dmf s d)) d (snd (pm_get_roles mf (fst (pdm_get_rm mf dmf s d)) x))).
+  Proof.
+    intros. unfold pdm_get_roles. destruct (pdm_get_rm mf dmf s d) as [rm s1]. simpl.
+    destruct (pm_get_roles mf rm x). reflexivity.
+  Qed.
+  Lemma pdm_get_users_split : forall s x d,
+    pdm_get_users mf dmf s x d =
+    (fst (pm_get_users mf (fst (pdm_get_rm mf dmf s d)) x),
+     pdm_put (snd (pdm_get_rm mf dmf s d)) d (snd (pm_get_users mf (fst (pdm_get_rm mf dmf s d)) x))).
+  Proof.
+    intros. unfold pdm_get_users. destruct (pdm_get_rm mf dmf s d) as [rm s1]. simpl.
+    destruct (pm_get_users mf rm x). reflexivity.
+  Qed.
+
+  Lemma adds_in_snoc : forall d h o, pdm_adds_in dmf d (h ++ [o]) =
+    pdm_adds_in dmf d h ++ match o with QAdd u r d' => if N.eqb d' d || dmf d d' then [(u, r)] else [] | _ => [] end.
+  Proof. intros. unfold pdm_adds_in. rewrite flat_map_app. simpl. rewrite app_nil_r. reflexivity. Qed.
+
+  Lemma pdm_add_inv : forall h s u r d0, pdm_inv h s -> In u U -> In r U -> In (u, r) A ->
+    pdm_inv (h ++ [QAdd u r d0]) (pdm_add_link mf dmf s u r d0).
+  Proof.
+    intros h s u r d0 [Mx [Dl Ch]] Hu Hr Ha. split; [exact Mx|]. split.
+    - intros d e. rewrite adds_in_snoc, in_app_iff, <- Dl.
+      unfold pdm_add_link, pdm_dlinks at 1, pdm_own at 1. simpl.
+      rewrite in_app_iff.
+      pose proof (flat_aset (fun d2 => negb (N.eqb d d2) && dmf d d2) d0 (u, r) e (pdm_links s)) as F.
+      simpl in F. unfold pdm_own at 1. rewrite F. clear F.
+      unfold pdm_dlinks. rewrite in_app_iff.
+      destruct (N.eq_dec d d0) as [->|Hne].
+      + rewrite alookup_aset_eq. rewrite N.eqb_refl. simpl. unfold pdm_own. rewrite in_app_iff. simpl.
+        intuition congruence.
+      + rewrite alookup_aset_neq by exact Hne. unfold pdm_own.
+        assert (E1 : N.eqb d d0 = false) by (apply N.eqb_neq; exact Hne).
+        assert (E2 : N.eqb d0 d = false) by (apply N.eqb_neq; congruence).
+        rewrite E1, E2. simpl. destruct (dmf d d0); simpl; intuition congruence.
+    - intros d rm. unfold pdm_add_link. simpl.
+      rewrite (alookup_map_cond (fun d' => dmf d' d0) (fun rm => pm_add_link mf rm u r)).
+      destruct (alookup d (pdm_cache s)) as [rm0|] eqn:C; simpl; [|discriminate].
+      intro E; inversion E; subst rm. clear E. destruct (Ch d rm0 C) as [Hd [Cn Mr]].
+      split; [exact Hd|]. rewrite adds_in_snoc. destruct (dmf d d0) eqn:Dd.
+      + rewrite orb_true_r. destruct (add_link_canon mf U A H1 H2 _ rm0 u r Cn Hu Hr Ha) as [C' [_ M']].
+        split; [exact C' | congruence].
+      + assert (E2 : N.eqb d0 d = false).
+        { apply N.eqb_neq. intro; subst d0. rewrite (Hrefl d Hd) in Dd. discriminate. }
+        rewrite E2. simpl. rewrite app_nil_r. auto.
+  Qed.
+
+  Lemma pdm_run_inv : forall h2 h1 s, pdm_inv h1 s ->
+    incl (pdm_names (h1 ++ h2)) U -> incl (pdm_adds (h1 ++ h2)) A -> incl (pdm_doms h2) Dm ->
+    pdm_no_deletes h2 = true ->
+    pdm_inv (h1 ++ h2) (pdm_run mf dmf s h2).
+  Proof.
+    induction h2 as [|o h2 IH]; intros h1 s I HU HA HD ND.
+    - rewrite app_nil_r. exact I.
+    - simpl in ND. apply andb_true_iff in ND. destruct ND as [ND1 ND2].
+      replace (h1 ++ o :: h2) with ((h1 ++ [o]) ++ h2) in * by (rewrite <- app_assoc; reflexivity).
+      change (pdm_run mf dmf s (o :: h2)) with (pdm_run mf dmf (pdm_step mf dmf s o) h2).
+      assert (HD' : incl (pdm_doms h2) Dm) by (intros x Hx; apply HD; right; exact Hx).
+      assert (Hd0 : In (qop_dom o) Dm) by (apply HD; left; reflexivity).
+      assert (HU1 : incl (pdm_names (h1 ++ [o])) U).
+      { intros x Hx. apply HU. unfold pdm_names in *. rewrite flat_map_app. apply in_app_iff. left. exact Hx. }
+      assert (HA1 : incl (pdm_adds (h1 ++ [o])) A).
+      { intros x Hx. apply HA. unfold pdm_adds in *. rewrite flat_map_app. apply in_app_iff. left. exact Hx. }
+      assert (HU0 : incl (pdm_names h1) U).
+      { intros x Hx. apply HU1. unfold pdm_names in *. rewrite flat_map_app. apply in_app_iff. left. exact Hx. }
+      assert (HA0 : incl (pdm_adds h1) A).
+      { intros x Hx. apply HA1. unfold pdm_adds in *. rewrite flat_map_app. apply in_app_iff. left. exact Hx. }
+      assert (HN : forall x, In x (qop_names o) -> In x U).
+      { intros x Hx. apply HU1. unfold pdm_names. rewrite flat_map_app. apply in_app_iff. right. simpl.
+        rewrite app_nil_r. exact Hx. }
+      apply IH; auto.
+      destruct o as [u r d0|u r d0|a b d0|x d0|x d0]; simpl in HN, Hd0; cbn [pdm_step].
+      + apply pdm_add_inv; auto. apply HA1. unfold pdm_adds. rewrite flat_map_app. apply in_app_iff. right. simpl. auto.
+      + discriminate.
+      + rewrite pdm_has_link_split. simpl.
+        destruct (pdm_get_rm_inv h1 s d0 I Hd0 HU0 HA0) as [Cn [Mr _]].
+        destruct (has_link_canon mf U A H1 H2 _ _ a b Cn) as [C' [_ [M' _]]]; auto.
+        apply pdm_query_inv; auto; [intro d; rewrite adds_in_snoc, app_nil_r; reflexivity | exact (eq_trans M' Mr)].
+      + rewrite pdm_get_roles_split. simpl.
+        destruct (pdm_get_rm_inv h1 s d0 I Hd0 HU0 HA0) as [Cn [Mr _]].
+        destruct (get_roles_canon mf U A H1 H2 _ _ x Cn) as [C' [_ [M' _]]]; auto.
+        apply pdm_query_inv; auto; [intro d; rewrite adds_in_snoc, app_nil_r; reflexivity | exact (eq_trans M' Mr)].
+      + rewrite pdm_get_users_split. simpl.
+        destruct (pdm_get_rm_inv h1 s d0 I Hd0 HU0 HA0) as [Cn [Mr _]].
+        destruct (get_users_canon mf U A H1 H2 _ _ x Cn) as [C' [_ M']]; auto.
+        apply pdm_query_inv; auto; [intro d; rewrite adds_in_snoc, app_nil_r; reflexivity | exact (eq_trans M' Mr)].
+  Qed.
+End DomCanon.
+
+Theorem domain_pattern_applies_exactly : forall mf dmf m h a b d,
+  pdm_no_deletes h = true -> pdm_in_scope mf dmf (h ++ [QHas a b d]) = true ->
+  (fst (pdm_has_link mf dmf (pdm_run mf dmf (pdm_empty m) h) a b d) = true
+   <-> exists k, k < m /\ path (grant mf (pdm_adds_in dmf d h)) k a b).
+Proof.
+  intros mf dmf m h a b d ND S. unfold pdm_in_scope in S.
+  apply andb_true_iff in S. destruct S as [S S3]. apply andb_true_iff in S. destruct S as [S1 S2].
+  set (hq := h ++ [QHas a b d]) in *.
+  pose proof (roles_plain_spec _ _ _ S1) as H1. pose proof (mf_trans_spec _ _ _ S2) as H2.
+  assert (Hrefl : forall d', In d' (pdm_doms hq) -> dmf d' d' = true).
+  { intros d' Hd. rewrite forallb_forall in S3. apply S3. exact Hd. }
+  assert (HUh : incl (pdm_names h) (pdm_names hq)).
+  { intros x Hx. unfold hq, pdm_names. rewrite flat_map_app. apply in_app_iff. left. exact Hx. }
+  assert (HAh : incl (pdm_adds h) (pdm_adds hq)).
+  { intros x Hx. unfold hq, pdm_adds. rewrite flat_map_app. apply in_app_iff. left. exact Hx. }
+  assert (HDh : incl (pdm_doms h) (pdm_doms hq)).
+  { intros x Hx. unfold hq, pdm_doms. rewrite map_app. apply in_app_iff. left. exact Hx. }
+  pose proof (pdm_run_inv mf dmf (pdm_names hq) (pdm_adds hq) (pdm_doms hq) m H1 H2 Hrefl
+                h [] (pdm_empty m) (pdm_inv_empty mf dmf _ _ _ m) HUh HAh HDh ND) as I.
+  simpl in I. rewrite pdm_has_link_split. simpl.
+  assert (Hd : In d (pdm_doms hq)).
+  { unfold hq, pdm_doms. rewrite map_app. apply in_app_iff. right. simpl. auto. }
+  destruct (pdm_get_rm_inv mf dmf (pdm_names hq) (pdm_adds hq) (pdm_doms hq) m H1 H2 h _ d I Hd HUh HAh)
+    as [Cn [Mr _]].
+  assert (Ha : In a (pdm_names hq)).
+  { unfold hq, pdm_names. rewrite flat_map_app. apply in_app_iff. right. simpl. auto. }
+  assert (Hb : In b (pdm_names hq)).
+  { unfold hq, pdm_names. rewrite flat_map_app. apply in_app_iff. right. simpl. auto. }
+  destruct (has_link_canon mf (pdm_names hq) (pdm_adds hq) H1 H2 _ _ a b Cn Ha Hb) as [_ [_ [_ R]]].
+  rewrite R, Mr. tauto.
+Qed.
+
+(* the domain variant of the deletion defect: the same assignment recorded for d1 (atom 5) and for
+   the pattern * (atom 6) lands twice in d1's cached manager *)
+Local Open Scope N_scope.
+Definition wd_mf : name -> name -> bool := table_mf [(1, 1); (2, 2)].
+Definition wd_dmf : name -> name -> bool := table_mf [(5, 5); (6, 6); (5, 6)].
+Theorem domain_delete_refuted :
+  let h := [QAdd 1 2 5; QHas 1 2 5; QAdd 1 2 6; QDel 1 2 6] in
+  let s := pdm_run wd_mf wd_dmf (pdm_empty 10) h in
+  pdm_in_scope wd_mf wd_dmf (h ++ [QHas 1 2 5]) = true /\
+  fst (pdm_has_link wd_mf wd_dmf (pdm_run wd_mf wd_dmf (pdm_empty 10) [QAdd 1 2 5; QHas 1 2 5; QAdd 1 2 6]) 1 2 5) = true /\
+  pdm_own s 5 = [(1, 2)] /\                                   (* still recorded for d1 *)
+  fst (pdm_has_link wd_mf wd_dmf s 1 2 5) = false /\          (* ... but no longer granted there *)
+  snd (pdm_delete_link_x wd_mf wd_dmf s 1 2 5) = Some EKeyError.
+Proof. vm_compute. repeat split; reflexivity. Qed.
+Local Close Scope N_scope.
